@@ -32,7 +32,7 @@ type C05Case struct {
 }
 
 func genC05(t *rapid.T) C05Case {
-	lim := genLimits(t)
+	lim := genLimitsGiant(t)
 	blocks, f := genStateBlocks(t, lim)
 	addPrunes(t, blocks)
 	c := C05Case{Blocks: blocks}
